@@ -56,10 +56,14 @@ func (f *Ash) Call(s *slip.Scope, args slip.List, depth int) (result slip.Object
 	}
 	switch ti := args[0].(type) {
 	case slip.Fixnum:
-		if sh < 0 {
-			result = slip.Fixnum(uint64(ti) >> -sh)
-		} else {
-			result = slip.Fixnum(uint64(ti) << sh)
+		switch {
+		case sh < 0:
+			// A signed shift keeps the sign and rounds down like floor.
+			result = ti >> -sh
+		case sh < 64 && ti<<sh>>sh == ti:
+			result = ti << sh
+		default:
+			result = bigAsh(big.NewInt(int64(ti)), sh)
 		}
 	case slip.Octet:
 		if sh < 0 {
@@ -68,40 +72,21 @@ func (f *Ash) Call(s *slip.Scope, args slip.List, depth int) (result slip.Object
 			result = slip.Octet(uint64(ti) << sh)
 		}
 	case *slip.Bignum:
-		ba := (*big.Int)(ti).Bytes()
-		if sh < 0 {
-			sh = -sh
-			bs := sh / 8
-			sh %= 8
-			mask := byte(^(0xff << sh))
-			var rem byte
-			for i, b := range ba {
-				ba[i] = (b >> sh) | rem
-				rem = (mask & b) << (8 - sh)
-			}
-			ba = ba[:len(ba)-bs]
-		} else {
-			bs := sh / 8
-			bn := make([]byte, len(ba)+bs+1)
-			copy(bn[1:], ba)
-			sh %= 8
-			mask := byte(^(0xff >> sh))
-			for i, b := range bn {
-				if 0 < i {
-					bn[i-1] |= (mask & b) >> (8 - sh)
-				}
-				bn[i] = b << sh
-			}
-			ba = bn
-		}
-		var bi big.Int
-		bi.SetBytes(ba)
-		if (*big.Int)(ti).Sign() < 0 {
-			bi.Neg(&bi)
-		}
-		result = intReduce(&bi)
+		result = bigAsh((*big.Int)(ti), sh)
 	default:
 		slip.TypePanic(s, depth, "integer", ti, "integer")
 	}
 	return
+}
+
+// bigAsh shifts left for a positive sh and right for a negative sh. The
+// shift is arithmetic so a right shift rounds down like floor.
+func bigAsh(bi *big.Int, sh int) slip.Object {
+	var z big.Int
+	if sh < 0 {
+		_ = z.Rsh(bi, uint(-sh))
+	} else {
+		_ = z.Lsh(bi, uint(sh))
+	}
+	return intReduce(&z)
 }
